@@ -1,5 +1,5 @@
 (* C30 — A healthy cluster elects a leader and replicates appended entries.
-   Pinned statements only; proofs in theories/RaftLive.v, RaftLiveInd.v, RaftLiveInd3.v, RaftLiveInd5.v; model theories/Raft.v.
+   Pinned statements only; proofs in theories/RaftLive.v, RaftLiveInd.v, RaftLiveInd3.v, RaftLiveInd5.v, RaftLiveAll.v, RaftLiveAll3.v; model theories/Raft.v.
 
    FULL STATEMENT: when all messages are delivered and timers fire as configured, a cluster (any size, any
    fault-free interleaving, any number of appended entries) elects exactly one leader, and every entry appended
@@ -11,9 +11,11 @@
    * 3 nodes, EVERY fault-free interleaving of the schedule `script3` (two appends);
    * 3 and 5 nodes, oldest-first delivery, two appends;
    * 3 and 5 nodes, oldest-first (FIFO) delivery, ANY number of appended entries with any payloads
-     (`C30_fifo_unbounded_3_partial` / `_5_partial`, induction over the payload list; second half of this file). *)
+     (`C30_fifo_unbounded_3_partial` / `_5_partial`, induction over the payload list; second half of this file);
+   * 3 nodes, EVERY per-channel-FIFO interleaving (messages of one pair of nodes in order, different pairs race),
+     ANY number of appended entries (`C30_channel_fifo_unbounded_3_partial`; last part of this file). *)
 From Coq Require Import NArith List.
-From Agdb Require Import Raft RaftProofs RaftLive RaftLiveInd RaftLiveInd3 RaftLiveInd5.
+From Agdb Require Import Raft RaftProofs RaftLive RaftLiveInd RaftLiveInd3 RaftLiveInd5 RaftLiveAll RaftLiveAll3.
 Import ListNotations.
 Open Scope N_scope.
 
@@ -136,3 +138,57 @@ Example C30_fifo_unbounded_5_example :
   all_synced_b c [7; 8; 9] = true.
 Proof. split; [exact (live_fifo_script_5 rr_fixed [7; 8; 9]) | vm_compute; repeat split; reflexivity]. Qed.
 Print Assumptions C30_fifo_unbounded_5_example.
+
+(* ================================================================== any number of appended entries, every
+   per-channel-FIFO interleaving (3 nodes)
+
+   `pf_run rv c c'` (RaftLiveAll.v): again and again ANY in-flight message is delivered that has no older in-flight
+   message of the same channel in front of it (channel = the pair (sender, receiver) of the request; a response
+   belongs to the channel of the request it answers), until the network is empty; nothing is lost or duplicated;
+   `Deliver k 0`: no timer has expired at the receiver.  This is what the server's transport gives: one ordered
+   connection per peer, deliveries to different peers race.  `pff_run rv actions c c'`: the scripted actions one after
+   the other, each followed by `pf_run`.
+   For EVERY revision of the election code, EVERY payload list (any length) and EVERY such run of a 3-node cluster:
+   the same conclusion as `C30_fifo_unbounded_3_partial`.
+   Proof: induction over the payloads; the steady state is generalised over the fields no handler reads (they are
+   where the interleavings differ); the election round is covered by the reflective exploration of ALL interleavings
+   on the concrete initial state, the heartbeat round by a symbolic exploration of ALL interleavings, an append round
+   (symbolic k, log, payload) by a symbolic exploration of all per-channel-FIFO interleavings (tactic `explore_p`: a
+   depth-first walk of the graph of symbolic states with the states already proved kept as hypotheses).
+   NOT covered (hence `_partial`): 5 and more nodes; interleavings in which a message overtakes an older one of its
+   own channel during an APPEND round (for two appends they are covered by C30_all_interleavings_3_partial; for a
+   symbolic round the same exploration proves it — 214 symbolic states, about 5 minutes — and was left out to keep
+   every file under 2 minutes); appends issued while messages are in flight. *)
+Theorem C30_channel_fifo_unbounded_3_partial : forall rv payloads c',
+  pff_run rv (live_actions 3 payloads) (init_default 3) c' ->
+  c_net c' = [] /\
+  map n_state (c_nodes c') = [Leader; Follower 0; Follower 0] /\
+  Forall (fun nd => n_term nd = 1 /\ n_logs nd = mk_log 1 0 payloads /\ n_commit nd = lenN payloads) (c_nodes c') /\
+  all_synced_b c' payloads = true.
+Proof. exact C30_pf_unbounded_3_proof. Qed.
+Print Assumptions C30_channel_fifo_unbounded_3_partial.
+
+(* the relations are nested: oldest-first ⊆ per-channel FIFO ⊆ any order *)
+Theorem C30_schedules_nested : forall rv c c',
+  (fifo_drain rv c c' -> pf_run rv c c') /\ (pf_run rv c c' -> dl_run rv c c').
+Proof. intros rv c c'. split; [apply fifo_drain_pf | apply pf_run_dl]. Qed.
+Print Assumptions C30_schedules_nested.
+
+(* non-vacuity: for every payload list the oldest-first run is one of these runs; and a run that is NOT oldest-first
+   (the second follower's append is delivered and acknowledged before the first follower's) is another one, for which
+   evaluation gives what the theorem says *)
+Example C30_channel_fifo_inhabited : forall rv payloads,
+  pff_run rv (live_actions 3 payloads) (init_default 3) (run rv 3 (live_script 12 8 4 3 payloads)).
+Proof. exact live_pf_3_inhabited. Qed.
+Print Assumptions C30_channel_fifo_inhabited.
+
+Example C30_channel_fifo_example :
+  let c0 := step rr_fixed (run rr_fixed 3 (Tick 0 0 [] :: repeat (Deliver 0 0) 12)) (ClientAppend 0 7) in
+  let c2 := run_from rr_fixed c0 (map (fun k => Deliver k 0) [1; 1; 0; 0; 1; 0; 1; 0]%nat) in
+  pf_run rr_fixed c0 c2 /\
+  c_net c2 = [] /\ map n_logs (c_nodes c2) = repeat [mkEntry 1 1 7] 3 /\ map n_commit (c_nodes c2) = [1; 1; 1].
+Proof.
+  intros c0 c2. split; [|vm_compute; repeat split; reflexivity].
+  subst c2. apply pf_check_sound. vm_compute. reflexivity.
+Qed.
+Print Assumptions C30_channel_fifo_example.
